@@ -146,7 +146,14 @@ func (n *Node) startLndListening() error {
 		return nil
 	}
 	rt.ReleaseLineage()
-	return n.lndClient.StartListening()
+	n.mu.Lock()
+	n.lndSwapSubscribing = true
+	n.mu.Unlock()
+	err := n.lndClient.StartListening()
+	n.mu.Lock()
+	n.lndSwapSubscribing = false
+	n.mu.Unlock()
+	return err
 }
 
 var _ = messages.MESSAGETYPE_POLL
